@@ -301,6 +301,56 @@ func d11() (bool, string) {
 		"second block is dated 2^64 - interval BEFORE the first (the expected date previous + interval wrapped around int64)", now, t0, t1, t2, t0-now)
 }
 
+// ---- D12: output indexes are uint16: in a transaction with more than 65536 outputs, output 65536 is recorded with
+// index 0 — listed for its owner under the reference of ANOTHER output
+func d12() (bool, string) {
+	s := settings()
+	w0, b, x := node.NewWallet(0), node.NewWallet(1), node.NewWallet(2)
+	n, gid := boot("n", s, w0, 1)
+	last := T0 + s.Interval
+	next := last + s.Interval
+	gv := n.Utxos.Utxos(w0.Address)[0].Value(next, s.HalfLife, s.Base, s.Limit)
+	outs := make([]node.RawOutput, 65537)
+	for i := range outs {
+		outs[i] = node.RawOutput{Address: b.Address, Value: 0}
+	}
+	outs[0].Value = 5000
+	outs[65536] = node.RawOutput{Address: x.Address, Value: gv - s.MinFee - 5000}
+	tx, _, err := node.MakeTx([]node.Spend{{gid, 0, w0}}, outs, last)
+	if err != nil {
+		return false, "build: " + err.Error()
+	}
+	n.Pool.AddTransaction(tx, "", "")
+	if len(n.Pool.Transactions()) != 1 {
+		return false, fmt.Sprintf("the 65537-output transaction was refused: %v", tail(n.Log.Drain(), 2))
+	}
+	n.Pool.Validate(next)
+	n.Pool.Validate(next + s.Interval)
+	var listed []string
+	for _, u := range n.Utxos.Utxos(x.Address) {
+		listed = append(listed, fmt.Sprintf("(%.8s, index %d) worth %d", u.TransactionId(), u.OutputIndex(), u.Value(next+2*s.Interval, s.HalfLife, s.Base, s.Limit)))
+	}
+	if len(listed) != 1 {
+		return false, fmt.Sprintf("wallet X lists %v", listed)
+	}
+	u := n.Utxos.Utxos(x.Address)[0]
+	if u.OutputIndex() != 0 {
+		return false, "output 65536 is listed with index " + fmt.Sprint(u.OutputIndex())
+	}
+	v := u.Value(next+2*s.Interval, s.HalfLife, s.Base, s.Limit)
+	spend, _, err := node.MakeTx([]node.Spend{{tx.Id(), u.OutputIndex(), x}}, []node.RawOutput{{x.Address, false, v - s.MinFee}}, next+s.Interval)
+	if err != nil {
+		return false, "build spend: " + err.Error()
+	}
+	n.Log.Drain()
+	n.Pool.AddTransaction(spend, "", "")
+	if len(n.Pool.Transactions()) == 1 {
+		return false, "the spend of the listed reference was admitted"
+	}
+	return true, fmt.Sprintf("output 65536 of a 65537-output transaction is listed for its owner as %s — the reference of output 0, which belongs to someone else; "+
+		"the owner's transaction built from the listing is refused: %v", listed[0], tail(n.Log.Drain(), 1))
+}
+
 // ---- D3: honest block with a yielding output to an address removed by the previous block is rejected
 // by a peer that holds the same chain plus its own competing tip
 func d3() (bool, string) {
@@ -561,6 +611,7 @@ var witnesses = []witness{
 	{"D1", "C01", "C01/fee-sum-wraps-uint64", d1, false},
 	{"D10", "C01", "C01/genesis-minted-again-after-adopting-chain-dated-zero", d10, false},
 	{"D1b", "C01", "C01/recreated-id-valued-as-old-instance", d1b, false},
+	{"D12", "C07", "C07/output-65536-listed-under-the-reference-of-output-0", d12, false},
 	{"D11", "C04", "C04/chain-dated-across-the-int64-wrap-adopted", d11, false},
 	{"D3", "C05", "C05/competitor-tip/yield-to-address-removed-by-previous-block", d3, false},
 	{"D9", "C11", "C11/same-output-twice-admitted", d9, false},
